@@ -260,8 +260,12 @@ func VerifyArtifacts(items []interface{},
 		deleted := materialPaths.Difference(productPaths)
 		remained := materialPaths.Intersection(productPaths)
 		modified := NewSet()
+		// The names in remained are cleaned paths: look the hashes up under the
+		// cleaned paths as well
+		cleanedMaterials := cleanArtifactPaths(materials)
+		cleanedProducts := cleanArtifactPaths(products)
 		for name := range remained {
-			if !reflect.DeepEqual(materials[name], products[name]) {
+			if !reflect.DeepEqual(cleanedMaterials[name], cleanedProducts[name]) {
 				modified.Add(name)
 			}
 		}
